@@ -49,6 +49,88 @@ class Rule:
         self.id, self.regex, self.repl, self.note, self.min_count = id, re.compile(regex, flags), repl, note, min_count
 
 
+class TlsWith(Rule):
+    """D4: `STATIC.with(|x| BODY)` -> `(BODY)`, and inside BODY `*x.borrow_mut()` / `x.borrow_mut()` -> `tls.FIELD`,
+    `let mut x = x.borrow_mut();` -> `let x = &mut tls.FIELD;`.  thread_local!/RefCell elimination: the
+    thread-local lists become fields of an explicit `tls: &mut Tls` parameter.  RefCell's dynamic borrow
+    check (a panic on re-entrant borrow) is not modelled."""
+    def __init__(self, static, field, min_count=1):
+        Rule.__init__(self, "D4", re.escape(static), "", "thread-local %s -> tls.%s" % (static, field), min_count=min_count)
+        self.static, self.field = static, field
+
+    def custom(self, src, m, item, in_skip):
+        out = []
+        for x in re.finditer(r"\b%s\s*\.\s*with\s*\(" % re.escape(self.static), m[item.body_open:item.body_close]):
+            st = item.body_open + x.start()
+            po = item.body_open + x.end() - 1
+            if in_skip(st):
+                continue
+            pc = rs.match_close(m, po)
+            pm = re.compile(r"\s*\|\s*([A-Za-z_][A-Za-z0-9_]*)\s*\|").match(m, po + 1)
+            if not pm:
+                raise GenError("construct outside the dialect: %s.with(..) without a |param| closure" % self.static)
+            param = pm.group(1)
+            out.append(Edit(st, pm.end(), "(/* D4: %s -> tls.%s */" % (self.static, self.field), "rule", "D4"))
+            # trailing comma before the closing paren
+            tm = re.compile(r",\s*$").search(m, pm.end(), pc)
+            if tm:
+                out.append(Edit(tm.start(), tm.start() + 1, "", "rule", "D4"))
+            body_s, body_e = pm.end(), pc
+            pats = [
+                (r"let\s+mut\s+%s\s*=\s*%s\.borrow_mut\(\)\s*;" % (param, param), "let %s = &mut tls.%s;" % (param, self.field)),
+                (r"\*\s*%s\.borrow_mut\(\)" % param, "tls.%s" % self.field),
+                (r"\b%s\.borrow_mut\(\)" % param, "tls.%s" % self.field),
+                (r"\b%s\.borrow\(\)" % param, "tls.%s" % self.field),
+            ]
+            taken = []
+            for rx, rep in pats:
+                for y in re.compile(rx).finditer(m, body_s, body_e):
+                    if any(a < y.end() and y.start() < b for a, b in taken):
+                        continue
+                    taken.append((y.start(), y.end()))
+                    out.append(Edit(y.start(), y.end(), rep, "rule", "D4"))
+        return out
+
+
+class MutSelf(Rule):
+    """D13: `fn f(mut self, ..) { .. self.x .. }` -> `fn f(self, ..) { let mut this = self; .. this.x .. }`
+    (this Verus rejects `mut self` parameters; the rewrite is the definition of a `mut` by-value binding)."""
+    def __init__(self):
+        Rule.__init__(self, "D13", r"mut self", "", "mut self parameter", min_count=1)
+
+    def custom(self, src, m, item, in_skip):
+        out = []
+        pm = re.compile(r"\bmut\s+self\b").search(m, item.params_open, item.params_close)
+        if not pm:
+            return out
+        out.append(Edit(pm.start(), pm.end(), "self", "rule", "D13"))
+        out.append(Edit(item.body_open + 1, item.body_open + 1, "\n        let mut this = self; /* D13 */", "rule", "D13"))
+        for y in re.compile(r"\bself\b").finditer(m, item.body_open, item.body_close):
+            if not in_skip(y.start()):
+                out.append(Edit(y.start(), y.end(), "this", "rule", "D13"))
+        return out
+
+
+class TailMethodToCall(Rule):
+    """D6f: a function body that is one expression `EXPR.method(arg)` -> `func(EXPR, arg)`
+    (used for `if .. {..} else {..}.serialize(serializer)`: serde's generic trait method becomes a stub call)."""
+    def __init__(self, id, method_call_regex, func, arg, note=""):
+        Rule.__init__(self, id, method_call_regex, "", note, min_count=1)
+        self.func, self.arg = func, arg
+
+    def custom(self, src, m, item, in_skip):
+        ms = list(self.regex.finditer(m, item.body_open, item.body_close))
+        if not ms:
+            return []
+        x = ms[-1]
+        if m[x.end():item.body_close].strip() != "":
+            raise GenError("construct outside the dialect: %s is not the tail of the body" % self.regex.pattern)
+        st = item.body_open + 1
+        while src[st].isspace():
+            st += 1
+        return [Edit(st, st, "%s(" % self.func, "rule", self.id), Edit(x.start(), x.end(), ", %s)" % self.arg, "rule", self.id)]
+
+
 class Loop:
     def __init__(self, invariants=(), decreases=None, iter_name=None, desugar_range_for=False, attrs=None, continue_hint=None):
         self.invariants, self.decreases, self.iter_name = list(invariants), decreases, iter_name
@@ -78,7 +160,14 @@ class Fn:
 
     @property
     def qual(self):
-        segs = [s.split()[-1] if s.startswith("impl ") else s for s in self.path]
+        segs = []
+        for s in self.path:
+            if re.match(r"impl\b", s) and not re.match(r"[A-Za-z_][A-Za-z0-9_]*$", s):
+                h = re.sub(r"\bwhere\b.*$", "", s).strip()
+                h = h.split(" for ")[-1] if " for " in h else re.sub(r"^impl(<[^>]*>)?\s*", "", h)
+                segs.append(re.sub(r"<.*$", "", h).strip())
+            else:
+                segs.append(s)
         return "::".join(segs)
 
 
@@ -355,6 +444,15 @@ def _fn_edits(spec, item, src, m, edits, rule_counts, clauses, top):
     rule_edits = []
     for r in spec.rules:
         cnt = 0
+        if getattr(r, "custom", None):
+            ces = r.custom(src, m, item, in_skip)
+            for e in ces:
+                e.rule = r
+            rule_edits.extend(ces)
+            rule_counts[r.id] = rule_counts.get(r.id, 0) + len(ces)
+            if len(ces) < r.min_count:
+                raise GenError("anchor lost: rule %s produced %d edit(s) in %s, needs >= %d" % (r.id, len(ces), spec.qual, r.min_count))
+            continue
         for x in r.regex.finditer(src, item.sig_start, item.body_close + 1):
             if in_skip(x.start()):
                 continue
